@@ -41,6 +41,11 @@ def main(prop: str, tier: str) -> int:
         except ImportError:
             pass
     if prop == 'C05':
+        # in-place arithmetic moves the operand's subtree (a unary / parenthesised atom, a whole sum) into the
+        # document: NumExpr.tla behaviours on a posting's number, Tree predicates after every in-place step
+        from checks import numexpr
+        add_part(rep, 'arithmetic_in_documents', numexpr.run(rep, tier, {'tree'}))
+    if prop == 'C05':
         from checks import inserted_comments
         add_part(rep, 'inserted_comments_between_fields', inserted_comments.run(rep, tier, {'tree'}))
     if prop == 'C05':
